@@ -50,3 +50,10 @@ Theorem C12_reject_propagates : forall apropos fuel a name f st n1 n2 r st',
   dispatch_printed apropos fuel a (f_items f) st = Some (r, st') -> r < 0 ->
   load_file apropos fuel a name f st = Some (r - (n1 + n2), st') /\ r - (n1 + n2) < 0.
 Proof. exact reject_propagates. Qed.
+
+(* The per-port heart of the round trip (uses C14's clamp_idem): a value a
+   callback has stored is stored unchanged when it is sent again - for every
+   kind but options, whose saved symbol goes through enum_key instead. *)
+Theorem C12_stored_value_is_a_fixed_point : forall p v v', store p v = Some v' ->
+  match p_kind p with KO => True | _ => store p v' = Some v' end.
+Proof. exact store_idem. Qed.
